@@ -29,6 +29,7 @@ def run_one(prop, tier, repo, seed, out_dir=None):
         except (AnalysisError, AnchorError) as e:
             # violations already decided stay valid; without any, the run is analysis-broken
             ctx.broken = str(e)
+        names.check_exits(ctx)              # rule X: no exit of an analysed function that the rules have never read
         try:
             names.check_names(ctx)          # rule N of every property (sa/names.py); an unbound name may be the very reason a rule could not be decided
         except (AnalysisError, AnchorError) as e:
